@@ -857,8 +857,19 @@ class Program:
                 raise Unsupported('do with step')
             inner_end = end if lbl is None else end + 1
             blk = S('block', items=self.block(ctx, body, k + 1, inner_end), synthetic=False)
+            pre_ = None
+            if hi.k not in ('ilit', 'var'):
+                # Fortran evaluates the bounds of a DO loop once, before the first iteration
+                ctx.tmpn += 1
+                hn = 'bx_dohi%d' % ctx.tmpn
+                ctx.locals.setdefault(hn, 'i')
+                hv = E('var', name=hn, extra='local')
+                pre_ = S('expr', e=E('assign', op='=', a=hv, b=hi))
+                hi = hv
             loop = S('for', init=S('expr', e=E('assign', op='=', a=var, b=lo)), cond=E('bin', op='<=', a=var, b=hi),
                      inc=E('assign', op='=', a=var, b=E('bin', op='+', a=var, b=E('ilit', name='1'))), body=blk)
+            if pre_ is not None:
+                return S('multi', items=[pre_, loop]), end + 1
             return loop, end + 1
         if re.match(r'^go\s*to\s*\(', t):
             mm = re.match(r'^go\s*to\s*\(([\d,\s]+)\)\s*,?\s*(\w+)$', t)
